@@ -30,7 +30,7 @@ Uniq(seed, i, j) == (i * 3 + j * 5 + seed) % 7
 NChunks(n) == (n + ChunkSize - 1) \div ChunkSize
 ChunkOf(n, c) == ((c - 1) * ChunkSize + 1)..(IF c * ChunkSize < n THEN c * ChunkSize ELSE n)
 
-\* targets for the arg-max rule: strict one-hot (tol2 = 1) or graded scores with a unique maximum (tol2 = 3; the
+\* targets for the arg-max rule: strict one-hot (tol2 = 1), graded scores with a unique maximum (tol2 = 3) or signed ones (tol2 = 5; the
 \* tolerance is irrelevant for this rule, so the field doubles as the target style)
 MkData(n, len, rule, tol2, obj, seed) ==
   [n |-> n, len |-> len, rule |-> rule, tol2 |-> tol2, obj |-> obj, seed |-> seed,
@@ -38,12 +38,13 @@ MkData(n, len, rule, tol2, obj, seed) ==
    targets |-> [i \in 1..n |-> [j \in 1..len |->
                   IF rule = "argmax"
                     THEN (IF tol2 = 1 THEN (IF j = ((i * 2 + seed) % len) + 1 THEN 1 ELSE 0)
-                                      ELSE Uniq(seed + 2, i + 1, j + 3))
+                          ELSE IF tol2 = 3 THEN Uniq(seed + 2, i + 1, j + 3)
+                          ELSE Uniq(seed + 2, i + 1, j + 3) - 4)        \* signed scores (e.g. a -1 / +1 coding): most are negative
                   ELSE Val(seed + 3, i * 13 + j) \div 2]]]
 
 Datasets ==
   {MkData(n, len, rule, tol2, obj, seed) :
-     n \in Ns, len \in Lens, rule \in {"argmax", "tol"}, tol2 \in {1, 3}, obj \in {"ae", "mse"}, seed \in Seeds}
+     n \in Ns, len \in Lens, rule \in {"argmax", "tol"}, tol2 \in {1, 3, 5}, obj \in {"ae", "mse"}, seed \in Seeds}
 
 \* ---- per-sample scores -------------------------------------------------------------
 Within(d, i, j) == 2 * Abs(d.preds[i][j] - d.targets[i][j]) < d.tol2
